@@ -8,6 +8,8 @@ import . "verifharness/hx"
 // no lock-trace conformance cases are produced; the stress and its oracles still run.
 const traceEnabled = false
 
+var traceTotal int
+
 func traceReset() {}
 
 func emitTrace(cw *CaseWriter, label string) int { return 0 }
